@@ -117,6 +117,16 @@ class CompGen:
 
   def declare(self):
     c, P = self.c, self.P
+    if getattr(self, "fixed_ports", None) is not None:
+      # same external interface as another class (C15 replacement families): ports given, insides free
+      self.signals = [dict(sg) for sg in self.fixed_ports]
+      for j in range(c.randint(*P["n_wire"])):
+        dims = [c.choice([2, 3, 4])] if c.random() < P["p_list"] else []
+        self.signals.append({"name": "w%d" % j, "kind": "wire", "type": self.pick_type(), "dims": dims})
+      for j, cls in enumerate(self.child_classes):
+        dims = [c.choice([2, 3])] if c.random() < P["p_list"] else []
+        self.subs.append({"name": "m%d" % j, "cls": cls, "dims": dims})
+      return
     n_in = c.randint(*P["n_in"])
     n_out = c.randint(*P["n_out"])
     n_wire = c.randint(*P["n_wire"])
@@ -708,6 +718,59 @@ class CompGen:
       else:
         out.append(["assign", fp, self.const(ft)])
     return out
+
+
+def add_variants(spec, c, P, nvar=2):
+  """C15: for every non-top class add `nvar` classes with the same ports and different insides.
+  -> {class name: [variant names]}"""
+  out = {}
+  G = DesignGen(c, P, uid=spec["uid"])
+  G.spec = spec
+  for cname in [n for n in list(spec["comps"]) if n != spec["top"]]:
+    cd = spec["comps"][cname]
+    ports = [sg for sg in cd["signals"] if sg["kind"] in ("in", "out")]
+    kids = sorted({sb["cls"] for sb in cd["subs"]})
+    out[cname] = []
+    for v in range(nvar):
+      vname = "%sv%d" % (cname, v)
+      small = dict(G.P, n_wire=(0, 4))
+      saveP = G.P
+      G.P = small
+      cg = CompGen(G, vname, False, kids if c.random() < 0.6 else [])
+      cg.fixed_ports = ports
+      newcd = cg.build()
+      G.P = saveP
+      # explicit, non-inverting constraints between blocks in creation order
+      blks = sorted([it["name"] for it in newcd["items"] if it["k"] == "comb"],
+                    key=lambda n: int(n[2:]) if n[2:].isdigit() else 0)
+      cons = []
+      if len(blks) >= 2 and c.random() < 0.7:
+        a, b = sorted(c.sample(range(len(blks)), 2))
+        cons.append("U(%s) < U(%s)" % (blks[a], blks[b]))
+      for it in newcd["items"]:
+        if it["k"] == "comb" and c.random() < 0.3:
+          tgt = [st for st in it["stmts"] if st[0] == "assign" and len(st[1]) == 1]
+          if tgt:
+            cons.append("WR(s.%s) < U(%s)" % (tgt[0][1][0][1], it["name"]) if False else
+                        "RD(s.%s) > U(%s)" % (tgt[0][1][0][1], it["name"]))
+      # WR(x) > U(earlier block): the earlier block runs before x's writer (creation order, no cycle)
+      combs = [it for it in newcd["items"] if it["k"] == "comb"]
+      for it in combs:
+        if c.random() < 0.3:
+          tgt = [st for st in it["stmts"] if st[0] == "assign" and len(st[1]) == 1]
+          me = int(it["name"][2:]) if it["name"][2:].isdigit() else 0
+          earlier = [b for b in blks if b[2:].isdigit() and int(b[2:]) < me]
+          if tgt and earlier:
+            cons.append("WR(s.%s) > U(%s)" % (tgt[0][1][0][1], c.choice(earlier)))
+      if cons:
+        newcd["items"].append({"k": "constraint", "src": ", ".join(dict.fromkeys(cons))})
+      # insert before the top (dict order = definition order; variants only use earlier classes)
+      spec["comps"][vname] = newcd
+      out[cname].append(vname)
+  # keep the top last
+  top = spec["comps"].pop(spec["top"])
+  spec["comps"][spec["top"]] = top
+  return out
 
 
 class DesignGen:
